@@ -325,6 +325,23 @@ Definition slot_settled (sl : slot obj) : bool :=
 Definition settled (m : mach) : bool :=
   forallb slot_settled (slots (m_cl m)) && forallb slot_settled (slots (m_hp m)).
 
+(* no live closure wrapper (heap object whose data[0] is a raw ClosureIdx, see allocate_heap_closure) refers to a
+   closure that has been freed: such a handle is a use-after-release waiting for its next call *)
+Definition wrapper_ok (m : mach) (sl : slot obj) : bool :=
+  match sval sl with
+  | Some o =>
+      match odata o with
+      | c :: _ =>
+          match sm_get (m_cl m) (key_of_raw c) with
+          | Some _ => true
+          | None => negb (stale (m_cl m) (key_of_raw c))
+          end
+      | [] => true
+      end
+  | None => true
+  end.
+Definition no_dangling (m : mach) : bool := forallb (wrapper_ok m) (slots (m_hp m)).
+
 (* THE MONITOR: the trace replays on the model from the given state and ends settled *)
 Definition balanced_from (m : mach) (tr : list event) : bool :=
   match mrun m tr with Some m' => settled m' | None => false end.
